@@ -85,8 +85,17 @@ TEXT.update({
  ),
 })
 TEXT.update({
- "C04": dict(level="PENDING", note=""),
- "C09": dict(level="PENDING", note=""),
- "C16": dict(level="PENDING", note=""),
+ "C04": dict(
+  level="Theorem C04_main (inf/C04Main.v, ~750 lines): for every Go type T of the domain, every well-typed value v and its encoding j under the model of encoding/json (field selection by JSON-name dominance through embedding, omitempty, omitzero on or off, nil pointers/slices/interfaces as null, embedded structs by value and pointer), the schema the transcription of forType returns for T accepts j under the specification function at every location and dynamic scope - hence (C04_validate) the model's Validate returns nil. Induction over the type with the struct case by a fold invariant (properties = selected fields in order, names pairwise distinct) and a read-along-index lemma. The three models (Go types/values, encoding/json, forType) are tied to the package and to the real encoder on every run: schema document, every encoding and every verdict compared on ~2500 generated (type, options, values) cases.",
+  note="Domain hypotheses of the theorem (good, wt): TypeSchemas holds only the standard marshaler types as strings; IgnoreInvalidTypes off; per struct type, struct_ok (the selected fields are the declared fields at their index sequences, reached through embedded fields - true of every type, proved per concrete type by computation, not yet universally). big.Int is a known finding (O-7b).",
+ ),
+ "C09": dict(
+  level="Theorem C09_scalar_verdict: for bool, every integer kind, floats and strings the inferred schema's verdict on ANY JSON value equals decodes_scalar - the right JSON type and, for sized integers, the exact range of the kind (exact-verdict lemma leaf_verdict over the specification function). For composite types the property is decided by the correspondence law on the real decoder: every single-point mutation of an encoding that the inferred schema accepts must decode into the type with DisallowUnknownFields; the schema side of that law (which documents are accepted) is compared with the model.",
+  note="Partial: encoding/json's decoder is the oracle, not modelled; composite types by differential law only. Known findings O-9a (float32 range), O-9b (unexported embedded pointer).",
+ ),
+ "C16": dict(
+  level="Theorems: C16_struct_fields - the properties of a struct's schema are exactly the fields encoding/json selects (json_fields, itself validated against the real encoder), under their JSON names, in field order (PropertyOrder), each with the field type's inferred schema, required exactly without omitempty/omitzero, additionalProperties false; C16_names_distinct; C16_cycle (a defined type met again during its own inference is an error at once); C16_nothing_dropped (IgnoreInvalidTypes off). Determinism and freshness hold in the model by construction (a function returning an immutable tree) and are decided for the package by laws of family infer: two calls give equal documents, no *Schema is shared between results, within a result or with TypeSchemas (reflection over all fields), Resolve accepts the result, names/order/required against the real encoder.",
+  note="TypeSchemas substitution and pointer-null handling are covered by correspondence (schema documents compared with the model on every case), not by a separate theorem.",
+ ),
 })
 PENDING = {}
